@@ -672,7 +672,7 @@ static void run_case(CaseCtx& c)
         return;
     }
 
-    std::string cls = std::string(pattern_name(pt)) + "/" + (order < 0 ? "as-assembled" : ORDER_NAMES[order]) + "/" + CTOR_NAMES[ctor];
+    std::string cls = std::string(pattern_name(pt)) + "/" + CTOR_NAMES[ctor] + (xfer != 0 ? std::string("/") + XFER_NAMES[xfer] : std::string());
     c.announce(cls);
 
     // ---- the real code, in a child
